@@ -1,1 +1,411 @@
 //! Hooks owned by property C16 (feature `verif-hooks`).
+//!
+//! A cooperative scheduler for the list implementation in `value/list.rs`:
+//! the list code calls [`sched_lock`] before every acquisition of a list's
+//! mutex and [`sched_use`] between looking an element pointer up and using
+//! it, and reports pointer / buffer events. A thread that is not attached to
+//! a [`Session`] (every thread outside the C16 harness) returns from all of
+//! these immediately.
+//!
+//! Inside a session exactly one attached thread runs at a time: a thread that
+//! reaches a schedule point parks there until the controller grants it the
+//! next step. The controller can ask, for a parked thread, whether the mutex
+//! it is about to take is free (a `try_lock` probe through a function pointer
+//! supplied by `list.rs`), so it never grants a step that would block.
+use std::cell::RefCell;
+use std::sync::{Arc, Condvar, Mutex};
+use std::time::{Duration, Instant};
+
+/// What the list code reported during one step.
+#[derive(Clone, Debug, PartialEq, Eq)]
+pub enum Event {
+    /// an element pointer was looked up (it "escapes" if the lock is free at
+    /// the next schedule point)
+    PtrObtained { addr: usize },
+    /// the pointer is about to be read through; `stale` = a realloc / free
+    /// covering `addr` happened after it was obtained
+    PtrUse { addr: usize, stale: bool },
+    PtrUseFinished { addr: usize },
+    /// `realloc_array` was called on `[old, old+old_bytes)`
+    Realloc { old: usize, old_bytes: usize, new: usize, new_bytes: usize },
+    /// `dealloc_array` was called on `[base, base+bytes)`
+    Free { base: usize, bytes: usize },
+    /// a thread parked at a schedule point while holding an element pointer
+    /// whose list's mutex was free: the pointer outlived its critical section
+    PtrOutsideLock { addr: usize, site: &'static str },
+}
+
+/// `try_lock` probe for the mutex a parked thread is about to take.
+#[derive(Clone, Copy)]
+pub struct LockProbe {
+    pub mutex: *const (),
+    pub is_free: unsafe fn(*const ()) -> bool,
+}
+// SAFETY: the probe is only called while the thread that published it is
+// parked at the schedule point and keeps the mutex alive.
+unsafe impl Send for LockProbe {}
+
+#[derive(Clone, Copy, PartialEq, Eq, Debug)]
+pub enum PointKind {
+    /// before `mutex.lock()`
+    Lock,
+    /// between pointer lookup and use
+    Use,
+    /// placed by the harness (operation boundary for lock-free operations)
+    Op,
+}
+
+#[derive(Clone)]
+enum TState {
+    /// not yet at its first schedule point, or running a granted step
+    Running,
+    Parked {
+        site: &'static str,
+        kind: PointKind,
+        lock_id: usize,
+        probe: Option<LockProbe>,
+    },
+    Finished,
+}
+
+struct Held {
+    addr: usize,
+    epoch: u64,
+}
+
+struct Inner {
+    state: Vec<TState>,
+    /// the thread currently allowed to run (None = controller's turn)
+    turn: Option<usize>,
+    events: Vec<(usize, Event)>,
+    epoch: u64,
+    /// invalidated ranges: (base, bytes, epoch at which it happened)
+    invalid: Vec<(usize, usize, u64)>,
+    held: Vec<Vec<Held>>,
+    trap_stale: bool,
+    aborted: bool,
+}
+
+/// One controlled execution of a set of threads.
+pub struct Session {
+    inner: Mutex<Inner>,
+    cv: Condvar,
+}
+
+/// Panic payload used to leave an operation at a stale pointer use without
+/// dereferencing the pointer.
+#[derive(Debug)]
+pub struct StaleUse {
+    pub addr: usize,
+}
+
+/// Panic payload with which parked threads leave after [`Session::abort`].
+#[derive(Debug)]
+pub struct Aborted;
+
+/// What the controller sees of a thread.
+#[derive(Clone, Debug, PartialEq, Eq)]
+pub enum Status {
+    Running,
+    Finished,
+    Parked {
+        site: &'static str,
+        kind: PointKind,
+        lock_id: usize,
+        /// for `Lock` points: is the mutex free right now
+        lock_free: Option<bool>,
+    },
+}
+
+/// How a granted step ended.
+#[derive(Clone, Debug, PartialEq, Eq)]
+pub enum StepEnd {
+    Parked,
+    Finished,
+    /// the thread did not reach a schedule point within the time limit
+    Hung,
+}
+
+thread_local! {
+    static CUR: RefCell<Option<(Arc<Session>, usize)>> = const { RefCell::new(None) };
+}
+
+fn cur() -> Option<(Arc<Session>, usize)> {
+    CUR.with(|c| c.borrow().clone())
+}
+
+impl Session {
+    /// `trap_stale`: a stale pointer use unwinds with a [`StaleUse`] payload
+    /// instead of reading freed memory.
+    pub fn new(threads: usize, trap_stale: bool) -> Arc<Session> {
+        Arc::new(Session {
+            inner: Mutex::new(Inner {
+                state: vec![TState::Running; threads],
+                turn: None,
+                events: vec![],
+                epoch: 0,
+                invalid: vec![],
+                held: (0..threads).map(|_| vec![]).collect(),
+                trap_stale,
+                aborted: false,
+            }),
+            cv: Condvar::new(),
+        })
+    }
+
+    /// Make the calling thread thread `tid` of this session. All threads run
+    /// freely until their first schedule point.
+    pub fn attach(self: &Arc<Self>, tid: usize) {
+        CUR.with(|c| *c.borrow_mut() = Some((self.clone(), tid)));
+    }
+
+    /// The calling thread has finished its program.
+    ///
+    /// (See also [`detach`]: leave the session temporarily.)
+    pub fn finish(self: &Arc<Self>, tid: usize) {
+        CUR.with(|c| *c.borrow_mut() = None);
+        let mut g = self.inner.lock().unwrap();
+        g.state[tid] = TState::Finished;
+        if g.turn == Some(tid) {
+            g.turn = None;
+        }
+        self.cv.notify_all();
+    }
+
+    /// Wait until no thread is `Running` (all parked or finished).
+    pub fn wait_quiescent(&self, limit: Duration) -> bool {
+        let deadline = Instant::now() + limit;
+        let mut g = self.inner.lock().unwrap();
+        loop {
+            if g.turn.is_none()
+                && g.state.iter().all(|s| !matches!(s, TState::Running))
+            {
+                return true;
+            }
+            let now = Instant::now();
+            if now >= deadline {
+                return false;
+            }
+            g = self.cv.wait_timeout(g, deadline - now).unwrap().0;
+        }
+    }
+
+    pub fn status(&self, tid: usize) -> Status {
+        let st = self.inner.lock().unwrap().state[tid].clone();
+        match st {
+            TState::Running => Status::Running,
+            TState::Finished => Status::Finished,
+            TState::Parked {
+                site,
+                kind,
+                lock_id,
+                probe,
+            } => Status::Parked {
+                site,
+                kind,
+                lock_id,
+                lock_free: match kind {
+                    // SAFETY: the thread is parked and keeps the mutex alive.
+                    PointKind::Lock => {
+                        probe.map(|p| unsafe { (p.is_free)(p.mutex) })
+                    }
+                    _ => None,
+                },
+            },
+        }
+    }
+
+    /// Let thread `tid` run from its schedule point to the next one (or to
+    /// the end of its program). Returns how the step ended and the events it
+    /// emitted.
+    pub fn grant(&self, tid: usize, limit: Duration) -> (StepEnd, Vec<Event>) {
+        let deadline = Instant::now() + limit;
+        let mut g = self.inner.lock().unwrap();
+        let from = g.events.len();
+        g.turn = Some(tid);
+        g.state[tid] = TState::Running;
+        self.cv.notify_all();
+        loop {
+            if g.turn.is_none() {
+                break;
+            }
+            let now = Instant::now();
+            if now >= deadline {
+                let evs =
+                    g.events[from..].iter().map(|e| e.1.clone()).collect();
+                return (StepEnd::Hung, evs);
+            }
+            g = self.cv.wait_timeout(g, deadline - now).unwrap().0;
+        }
+        let evs = g.events[from..].iter().map(|e| e.1.clone()).collect();
+        let end = match g.state[tid] {
+            TState::Finished => StepEnd::Finished,
+            _ => StepEnd::Parked,
+        };
+        (end, evs)
+    }
+
+    fn park(
+        &self,
+        tid: usize,
+        site: &'static str,
+        kind: PointKind,
+        lock_id: usize,
+        probe: Option<LockProbe>,
+    ) {
+        let mut g = self.inner.lock().unwrap();
+        // a pointer held across a schedule point while its mutex is free has
+        // left its critical section
+        if let Some(p) = probe {
+            if !g.held[tid].is_empty() {
+                // SAFETY: the calling thread keeps the mutex alive.
+                let free = unsafe { (p.is_free)(p.mutex) };
+                if free {
+                    let addr = g.held[tid][0].addr;
+                    g.events.push((tid, Event::PtrOutsideLock { addr, site }));
+                }
+            }
+        }
+        g.state[tid] = TState::Parked {
+            site,
+            kind,
+            lock_id,
+            probe,
+        };
+        if g.turn == Some(tid) {
+            g.turn = None;
+        }
+        self.cv.notify_all();
+        while g.turn != Some(tid) && !g.aborted {
+            g = self.cv.wait(g).unwrap();
+        }
+        if g.aborted {
+            drop(g);
+            CUR.with(|c| *c.borrow_mut() = None);
+            std::panic::panic_any(Aborted);
+        }
+        g.state[tid] = TState::Running;
+    }
+
+    /// End the session: every parked thread unwinds out of its operation
+    /// with an [`Aborted`] payload (used after a deadlock, a trapped stale
+    /// use or a hung step; the lists of the session are discarded).
+    pub fn abort(&self) {
+        let mut g = self.inner.lock().unwrap();
+        g.aborted = true;
+        self.cv.notify_all();
+    }
+}
+
+/// Detach the calling thread from its session (its list operations stop
+/// being schedule points) without marking it finished; `Session::attach`
+/// re-attaches it.
+pub fn detach() {
+    CUR.with(|c| *c.borrow_mut() = None);
+}
+
+/// Schedule point before `mutex.lock()`; `lock_id` identifies the mutex.
+pub fn sched_lock(site: &'static str, lock_id: usize, probe: LockProbe) {
+    if let Some((s, tid)) = cur() {
+        s.park(tid, site, PointKind::Lock, lock_id, Some(probe));
+    }
+}
+
+/// Schedule point between an element-pointer lookup and its use; `probe` is
+/// the mutex of the list the pointer points into.
+pub fn sched_use(site: &'static str, lock_id: usize, probe: LockProbe) {
+    if let Some((s, tid)) = cur() {
+        s.park(tid, site, PointKind::Use, lock_id, Some(probe));
+    }
+}
+
+/// Schedule point placed by the harness itself (start of an operation that
+/// takes no lock).
+pub fn sched_op(site: &'static str) {
+    if let Some((s, tid)) = cur() {
+        s.park(tid, site, PointKind::Op, 0, None);
+    }
+}
+
+pub fn ptr_obtained(addr: usize) {
+    if let Some((s, tid)) = cur() {
+        let mut g = s.inner.lock().unwrap();
+        let epoch = g.epoch;
+        g.held[tid].push(Held { addr, epoch });
+        g.events.push((tid, Event::PtrObtained { addr }));
+    }
+}
+
+/// Emits `PtrUseFinished` when dropped.
+pub struct UseScope(Option<usize>);
+
+impl Drop for UseScope {
+    fn drop(&mut self) {
+        if let (Some(addr), Some((s, tid))) = (self.0, cur()) {
+            let mut g = s.inner.lock().unwrap();
+            g.held[tid].retain(|h| h.addr != addr);
+            g.events.push((tid, Event::PtrUseFinished { addr }));
+        }
+    }
+}
+
+/// The pointer is about to be read through. In a session created with
+/// `trap_stale` a stale use unwinds with [`StaleUse`] instead of returning.
+pub fn ptr_use(addr: usize) -> UseScope {
+    let Some((s, tid)) = cur() else {
+        return UseScope(None);
+    };
+    let trap;
+    let stale;
+    {
+        let mut g = s.inner.lock().unwrap();
+        let since = g.held[tid]
+            .iter()
+            .find(|h| h.addr == addr)
+            .map(|h| h.epoch)
+            .unwrap_or(0);
+        stale = g
+            .invalid
+            .iter()
+            .any(|&(b, n, e)| e > since && addr >= b && addr < b + n);
+        g.events.push((tid, Event::PtrUse { addr, stale }));
+        trap = g.trap_stale;
+        if stale && trap {
+            g.held[tid].retain(|h| h.addr != addr);
+        }
+    }
+    if stale && trap {
+        std::panic::panic_any(StaleUse { addr });
+    }
+    UseScope(Some(addr))
+}
+
+pub fn realloc(old: usize, old_bytes: usize, new: usize, new_bytes: usize) {
+    if let Some((s, tid)) = cur() {
+        let mut g = s.inner.lock().unwrap();
+        g.epoch += 1;
+        let e = g.epoch;
+        g.invalid.push((old, old_bytes, e));
+        g.events.push((
+            tid,
+            Event::Realloc {
+                old,
+                old_bytes,
+                new,
+                new_bytes,
+            },
+        ));
+    }
+}
+
+pub fn free(base: usize, bytes: usize) {
+    if let Some((s, tid)) = cur() {
+        let mut g = s.inner.lock().unwrap();
+        g.epoch += 1;
+        let e = g.epoch;
+        g.invalid.push((base, bytes, e));
+        g.events.push((tid, Event::Free { base, bytes }));
+    }
+}
+
+pub use crate::value::list::c16_api::*;
